@@ -71,11 +71,9 @@ def _e2e(text):
 
 CLAIMS.update({
     'C02': _e2e('After the fault prefix ends every reliable message is read and both sides report zero buffered/pending/in-flight bytes within heal + 600 s of virtual time (blackouts > 60 s, zero-window readers, 40 % loss, reordering).'),
-    'C06': _e2e('Unordered / partially reliable streams: reads must match distinct written messages (subsequence for ordered), DCEP always delivered in order.'),
     'C07': _e2e('Partial-reliability scenarios: a message that was not delivered must be one the sender told the peer to skip (stream entry or cumulative point of a FORWARD-TSN / I-FORWARD-TSN); everything else is delivered.'),
     'C08': _e2e('Graceful shutdown with data still queued, one-sided and crossed, under faults: Shutdown()==nil implies all earlier writes read in order before EOF; both sides closed; late writes/OpenStream rejected and never delivered.'),
     'C09': _e2e('Close / Abort / transport read failure / write failure injected right after the k-th wire event of runs that go through handshake, transfer, stream reset and shutdown, with callers parked in Connect, Accept, Read, Write, Shutdown: everything returns, no goroutine of the package survives, no write to a closed conn, Close idempotent, ABORT cause reaches the peer.'),
-    'C18': _e2e('API-contract programs: oversize / empty / closed-stream writes, blocking writes with deadlines, short read buffers (message stays available), read deadlines expiring with no data; rejected calls are invisible in the peer read history; blocking-write gate checked white-box.'),
 })
 
 CLAIMS.update({
@@ -189,6 +187,56 @@ CLAIMS.update({
         'note': SENDER_NOTE + ' Per-stream theorems assume the ghost flag wrapBuf is down (no uint64 wrap of bufferedAmount). C15_callback_unlocked is syntactic (lock events per path of one '
                 'function, neighbours of the call statement), the harness adds a dynamic TryLock probe; deadlock freedom in general is C20.',
         'technique': 'Lean 4 proof (accounting invariant + induction over op lists; decide on translator-extracted lock paths) + model/implementation differential replay',
+    },
+})
+
+API_NOTE = (NOTE_COMMON + ' The L0 model Model/StreamApi.lean (namespace Sapi) is hand-written ON TOP of the existing models Sender (send half: packetize, rollback, '
+            'checkPR with firstSent, gather, sack, t3) and Reasm (reassembly queue), which it imports and does not fork; it adds Stream.WriteSCTP / sendPayloadData incl. the '
+            'blocking-write gate and deadline (a blocked call is a parked record that leaves through wake or failWaiter), Close + sendResetRequest, ReadSCTP / handleData / '
+            'SetReadDeadline, createForwardTSN / createIForwardTSN. Its conditions are NOT re-typed: Gen.write_tooLarge / write_notOpen / write_empty / send_notEstablished[AfterWait] / '
+            'send_gated / send_waits / popPending_notifyWritable / reset_notEstablished / close_* are expression sites regenerated from /repo on every run; the hand-typed pieces reused from '
+            'Sender are proved equal to the sites Gen.packetize_*, Gen.checkPR_*, Gen.abandoned_*, Gen.*_skips / *_stops / miss_eligible (C18_packetize_sites, C06_abandon_decision, '
+            'C06_abandoned_skipped). Tie of the structure: direct-drive correspondence TestVerifStreamAPI - one real Association driven single-threaded under testing/synctest with real '
+            'WriteSCTP / Close / ReadSCTP / SetReadDeadline calls (a call that does not return stays parked in its goroutine inside the bubble); after EVERY op the whole state line (per '
+            'stream SSN, both MIDs, buffered amount, state; pending queue contents; writePending; window figures; abandoned TSNs) and after read-side ops the read-side state are compared, '
+            'plus every call result, every released call, the DATA packets, per-chunk nSent and FORWARD-TSN of every gather. ORACLES: as for Sender (burst budget, pending-queue '
+            'selection, RACK/PTO marks, T3 expiries during a tick) plus which parked writer a writeNotify token wakes. SINGLE-THREADED ABSTRACTION: one API call at a time, everything '
+            'runnable has run before the next operation; concurrent writers / the sync.Cond and channel choreography are sampled by the e2e api mode, not proved.')
+
+CLAIMS.update({
+    'C18': {
+        'text': 'Lean theorems over the L0 stream-API model, all states / arguments: C18_rejected_write_no_effect (a write that neither queues data nor is parked - oversize, closed stream, '
+                'empty, association not established, blocking mode with the deadline already passed, write lock held, no stream - returns EXACTLY the state it was given: the roll-back of '
+                'SSN / MID / buffered amount is exact) with C18_errors_are_rejected; C18_parked_write_rollback (a blocking write that waited and then fails leaves the state it found apart '
+                'from the model\'s two ghost id allocators); C18_write_consumes_one_id (an accepted write of n>0 bytes appends ceil(n/maxPayload) chunks of one message: FSN 0,1,..; B first, E '
+                'last; 1..maxPayload bytes adding up to n; stream id, PPI, U flag; each carries the identifier the counters held; exactly one counter advances by one; buffered += n; other '
+                'streams untouched); C18_ids_consecutive (ALL operation lists: the messages handed to the pending queue for a stream carry consecutive identifiers of their class whatever '
+                'rejected, failed, empty, parked, timed-out calls, SACKs, T3, ticks, reads, policy changes happen in between - the D7 property as a theorem, incl. blocking mode); '
+                'C18_short_read_keeps_message (on the existing Reasm model: a short-buffer read returns the queue unchanged and reports the size of the message at its head; every later read '
+                'with a large enough buffer returns exactly that message) and C18_short_ReadSCTP_keeps_stream; C18_read_deadline_keeps_messages (the deadline timer touches no message); '
+                'C18_blocking_write_gate ((1) a blocking write that returns n>0 found writePending down and no DATA of an earlier write in the pending queue, (2) a parked write is released '
+                'only by a gather that emptied the queue, (3) D18: a gather that leaves the queue empty and wakes nobody leaves writePending down), on the invariant GInv that holds in every '
+                'reachable state (C18_invariant_reachable); C18_packetize_sites. Plus executable predicates [C18] on the implementation outputs (W-NOEFFECT, W-ONEID, W-ROLLBACK, W-GATE, '
+                'R-SHORT, R-DEADLINE) and the e2e api / shutdown scenarios (concurrent callers, real deadlines across arrival instants).',
+        'note': API_NOTE + ' Not proved: goroutine interleavings of several writers (which parked writer wakes is an oracle), the read-deadline goroutine racing a concurrent push, data-race freedom.',
+        'technique': 'Lean 4 proof (case characterisation of write; invariants of parked calls and of the gate by induction over op lists) + model/implementation differential replay of a direct-driven real Association + executable predicates + e2e exploration',
+    },
+    'C06': {
+        'text': 'API-visible half (DCEP, retransmission policies) proved; receive half (at most once, intact, subsequence) by exploration + Reasm (+ the wire theorems of Props/C06wire.lean). '
+                'Lean theorems (Props/C06.lean): C06_dcep_reliable_ordered (packetize clears the U flag for PPI 50 on every fragment whatever the stream setting; '
+                'checkPartialReliabilityStatus never marks a DCEP chunk; an accepted DCEP write queues ordered chunks only); C06_abandon_decision (Sender.checkPR = the decision written with '
+                'the regenerated conditions: nSent >= value, elapsed since the FIRST transmission >= value, DCEP / not-negotiated / unknown-stream exempt; abandoned() = marked AND all fragments '
+                'in flight); C06_abandoned_skipped (T3 marking, miss indications, fast retransmission, the T3-path retransmission gather (since 6ddfdda), RACK after SACK, RACK timer, PTO, both '
+                'advance loops test abandoned() as the regenerated sites do); for ALL operation lists that do not re-open / re-configure the stream: C06_rexmit_bound (limit N: every ending '
+                'fragment - so every unfragmented message - in flight or put on the wire by any gather has nSent <= max(1,N) <= N+1), C06_rexmit_bound_fragmented_partial (every fragment: '
+                'transmitted N times => message marked; the bound fails for non-final fragments while the tail is pending: C06_D14_witness, known finding D14), '
+                'C06_abandoned_never_retransmitted (all policies: once a message is abandoned() the transmission counter of its chunks never moves again), C06_timed_bound (lifetime L: a '
+                'transmission L ms or more after the first makes the message marked, for an ending fragment abandoned(): it is the last one), C06_D21_fixed (the scenario that gave a second '
+                'transmission after expiry before commit 6ddfdda). Plus the predicate PolicySpec on every DATA chunk of every gather of both direct-drive harnesses, DCEP-ORDERED / '
+                'DCEP-RELIABLE on the stream-API harness, and the e2e pr / transfer / api scenarios with the history predicates for the receive half.',
+        'note': API_NOTE + ' Bounds are stated on nSent, the transmission ordinal the model stamps on every chunk it puts in a packet (compared with the implementation per chunk and gather). '
+                'The policy must be in force: FORWARD-TSN negotiated, stream in the association table, policy not changed during the run.',
+        'technique': 'Lean 4 proof (per-chunk predicates closed under the local transitions of gather / SACK / T3 / tick, lifted to op lists; decide on witnesses) + regenerated decision sites + model/implementation differential replay + executable predicates + e2e exploration',
     },
 })
 
